@@ -14,6 +14,17 @@
 (*   got = fresh                                       (reuse is invisible)*)
 (*   got = sub    (sub: a fresh Allowed() over exactly the (type, state    *)
 (*                 key) pairs the library's StateNeededForAuth names)      *)
+(*   got = sel    (sel: an equivalent new event built with AddAuthEvents   *)
+(*                 over the needed state - in room versions whose room ID  *)
+(*                 names the create event also over the needed state       *)
+(*                 WITHOUT it - judged against the auth events it lists)   *)
+(* What else the line says about the session is not read on purpose: pad   *)
+(* (the provider also held power-levels / join-rules / create typed state  *)
+(* under OTHER state keys, before / after / between the real events) and   *)
+(* editing (the caller overwrote what PDU.PowerLevels() etc. returned      *)
+(* between the checks), keep (the provider was not cleared before this     *)
+(* check: AddEvent replaced its entries one by one) must not show in any   *)
+(* verdict.                                                                *)
 (* The history variables seen / held make the statement about histories    *)
 (* explicit: Functional says that two lines of the trace with the same     *)
 (* (version, needed state, event) carry the same verdict whatever happened *)
@@ -40,6 +51,7 @@ Explains(r) ==
     /\ Allowed(r.ver, RestrictTo(s, Needed(r.ev)), r.ev) = r.got
     /\ r.fresh = r.got
     /\ r.sub = r.got          \* a fresh Allowed over exactly the state StateNeededForAuth names
+    /\ r.sel = r.got          \* another server, against the auth events AddAuthEvents lists for an equivalent new event
 
 \* the first earlier line with the same projection, 0 if none
 Earlier(r) == LET p == Proj(r) IN
